@@ -830,7 +830,7 @@ pub fn run(r: &Report, prop: &str) {
             r.set_rule("all block layouts: code indent x multi-byte x 0..2 lines before x optional pending parent x 1..B ready default-strategy blocks (tags alone on lines, tag indent from {none, 2 spaces, tab, 4 spaces, space+tab, tab+space}, 1..2 content lines), each with b blank-ish lines before and a after (a,b in 0..M with M = 3 (quick) / 4 (thorough) for a single block, smaller for 2 and 3 blocks; each blank-ish line from {empty, spaces, tab}), blocks separated by 0/1 code line x 0..2 lines after x final newline; oracle (1) non-blank output lines == surviving non-blank input lines byte for byte, (2) a+b-[a>0 and b>0] blank lines remain between the neighbours of every isolated block; non-trivial = distinct layouts with a+b>0, indented tags, or the block first/last in the file");
             let p = match r.tier {
                 Tier::Quick => P13 { max_ab_by_blocks: vec![3, 1], max_ab: 3, blank_kinds: 3, max_blocks: 2, indents: vec!["", "  ", "\t", " \t"] },
-                Tier::Thorough => P13 { max_ab_by_blocks: vec![4, 2, 0], max_ab: 4, blank_kinds: 3, max_blocks: 3, indents: vec!["", "  ", "\t", " \t"] },
+                Tier::Thorough => P13 { max_ab_by_blocks: vec![4, 1, 0], max_ab: 4, blank_kinds: 3, max_blocks: 3, indents: vec!["", "  ", "\t", " \t"] },
             };
             let counted = explore_choices(
                 |ch: &mut Chooser| gen13(ch, &p),
